@@ -150,7 +150,11 @@ func Boot(t *testing.T, b *Boundary, o BootOpts, shared *Cluster) *Cluster {
 		for i := range ps {
 			ps[i] = &PluginShim{Real: ps[i], B: b, Inst: o.Inst}
 		}
-		cl.Slots = NewSlotsPlugin()
+		if shared != nil && shared.Slots != nil {
+			cl.Slots = shared.Slots // the second plugin's records outlive an instance, like cpumem's records in etcd
+		} else {
+			cl.Slots = NewSlotsPlugin()
+		}
 		mgr.AddPlugins(&PluginShim{Real: cl.Slots, B: b, Inst: o.Inst})
 	}
 	cl.Rmgr = &RmgrShim{Real: c.VerifRmgr(), B: b, Inst: o.Inst}
